@@ -1,4 +1,4 @@
-/* Witness programs for the defects F1..F11 found on the pinned tree (see DESIGN.md section 3).
+/* Witness programs for the defects F1..F13 found on the pinned tree (see DESIGN.md section 3).
  * usage: probe fN <workdir>     exit 0 = behaviour correct, 1 = defect shown, other = crash
  * Build: see findings/run_probes.sh (ASan build of the library objects, hooks on).
  */
@@ -280,13 +280,37 @@ static int f11(void)
 	return bad;
 }
 
+/* F12 / F13: zlib and snappy with inputs of 4 GiB and more (lazily mapped zero pages, nothing is really allocated) */
+#include <sys/mman.h>
+static int big_roundtrip(int alg, unsigned long long n)
+{
+	uint8_t *buf = mmap(NULL, n + 4096, PROT_READ | PROT_WRITE, MAP_PRIVATE | MAP_ANONYMOUS | MAP_NORESERVE, -1, 0);
+	if (buf == MAP_FAILED) { printf("cannot map\n"); return 2; }
+	buf[n - 1] = 7;
+	uint8_t *out = NULL, *back = NULL; size_t lo = 0, lb = 0;
+	mtbl_res r = mtbl_compress((mtbl_compression_type)alg, buf, n, &out, &lo);
+	printf("algorithm %d, %llu bytes: compress -> %s", alg, n, r == mtbl_res_success ? "success" : "failure (fine)");
+	int bad = 0;
+	if (r == mtbl_res_success) {
+		r = mtbl_decompress((mtbl_compression_type)alg, out, lo, &back, &lb);
+		bad = !(r == mtbl_res_success && lb == n);
+		printf(", decompress -> %s, %zu bytes back%s", r == mtbl_res_success ? "success" : "failure", lb, bad ? " (expected the input back, or a refusal to compress)" : "");
+		free(out); if (r == mtbl_res_success) free(back);
+	}
+	printf("\n");
+	munmap(buf, n + 4096);
+	return bad;
+}
+static int f12(void) { int b = big_roundtrip(MTBL_COMPRESSION_ZLIB, 0x100001000ULL); b |= big_roundtrip(MTBL_COMPRESSION_ZLIB, 0xFFFFF000ULL); return b; }  /* second call: abort on the pinned tree */
+static int f13(void) { return big_roundtrip(MTBL_COMPRESSION_SNAPPY, 0x100001000ULL); }
+
 int main(int argc, char **argv)
 {
 	if (argc < 3) return 2;
 	wd = argv[2];
 	setvbuf(stdout, NULL, _IONBF, 0);
-	int (*fs[])(void) = {f1, f2, f3, f4, f5, f6, f7, f8, f9, f10, f11};
+	int (*fs[])(void) = {f1, f2, f3, f4, f5, f6, f7, f8, f9, f10, f11, f12, f13};
 	int n = atoi(argv[1] + 1);
-	if (n < 1 || n > 11) return 2;
+	if (n < 1 || n > 13) return 2;
 	return fs[n - 1]();
 }
